@@ -31,6 +31,9 @@ def plan_runs(prop, scenario, flags, ts, cfg):
         return [dict(base, name="first-call", keep=True), dict(base, t=ts[1], name="second-call-same-shaper", reuse=0), dict(base, t=ts[1], name="fresh-shaper")]
     if scenario == "repeat":         # the same call twice on one Shaper
         return [dict(base, name="first-call", keep=True), dict(base, name="second-call-same-shaper", reuse=0)]
+    if scenario == "ignore-ns":      # namespaces_to_ignore = deleting those triples from the input (class membership still from the full graph)
+        return [dict(base, graph="D", name="triples-deleted"), dict(base, graph="D", name="namespaces_to_ignore", real_graph="G", e2e_only=True,
+                                                                    real_extra={"namespaces_to_ignore": [T.IGNORED_NS]})]
     if scenario == "permuted":       # the same graph with its statements in another order
         return [dict(base, name="document-order"), dict(base, graph="P", name="permuted-order")]
     if scenario == "inverse3":
@@ -54,6 +57,11 @@ def plan_runs(prop, scenario, flags, ts, cfg):
         elif opt in T.SWITCHES:
             a["flags"] = dict(flags, **{opt: True})
             b["flags"] = dict(flags, **{opt: False})
+        elif opt.startswith("e2e:"):
+            # options whose code is outside the symbolically executed stage: applied to the real pipeline of the witness only
+            import json as _json
+            b["real_extra"] = _json.loads(opt[4:])
+            b["e2e_only"] = True
         elif opt == "disable_or_statements":
             b["or_flags"] = (False, False)
         elif opt == "allow_redundant_or":
@@ -113,7 +121,7 @@ def run_obligation(res, prop, st_name, N, findings, scenario="single", cfg=None)
         for r in runs:
             key = (r["graph"], r["flags"]["inverse_paths"])
             if key not in syms:
-                syms[key] = T.build_symbolic(ex, st, N, r["flags"]["inverse_paths"], reverse=(r["graph"] == "R"), permuted=(r["graph"] == "P"), targets=targets)
+                syms[key] = T.build_symbolic(ex, st, N, r["flags"]["inverse_paths"], reverse=(r["graph"] == "R"), permuted=(r["graph"] == "P"), targets=targets, dropped=(r["graph"] == "D"))
             r["sym"] = syms[key]
             try:
                 extra = dict(r["extra"])
@@ -202,8 +210,9 @@ def run_obligation(res, prop, st_name, N, findings, scenario="single", cfg=None)
         reals = []
         for r in runs:
             thr = thr_of.get(id(r["t"]), r["t"])
-            doc = R.to_ntriples(_graph_variant(st, vals, triples, r["graph"], shapemap))
+            doc = R.to_ntriples(_graph_variant(st, vals, triples, r.get("real_graph", r["graph"]), shapemap))
             extra = dict(r["extra"])
+            extra.update(r.get("real_extra", {}))
             if targets is not None:
                 extra["target_classes"] = [R.EX + c for c in targets]
             if shapemap:
@@ -223,6 +232,8 @@ def run_obligation(res, prop, st_name, N, findings, scenario="single", cfg=None)
                     mismatch = "run %s: symbolic %r vs real %r" % (r["name"], r["err"] or "returned", real.get("err") or "returned")
                 continue
             inst = instantiate(r["text"], ex.tokens, m)
+            if r.get("e2e_only"):
+                continue       # the option acts outside the symbolic stage: this run is judged by the concrete oracle only
             if inst != real["text"]:
                 mismatch = "run %s:\n--- symbolic (instantiated)\n%s\n--- real pipeline\n%s" % (r["name"], inst, real["text"])
             elif r["want_shacl"] and not _same_graph(r["shacl"], real["shacl"]):
@@ -239,6 +250,11 @@ def run_obligation(res, prop, st_name, N, findings, scenario="single", cfg=None)
                 res["witnesses"] += 1
                 return
             raise HarnessError("engine/impl disagreement on x=%r thresholds=%r flags=%r: %s" % (vals, all_thr, ctx["flags"], mismatch))
+        if viol is None and problems and any(r.get("e2e_only") for r in runs):
+            if len(res["violations"]) < 3:
+                res["violations"].append(payload(ctx, vals, all_thr, "end-to-end witness: " + problems[0]))
+            res["witnesses"] += 1
+            return
         if viol is None and problems:
             raise HarnessError("concrete oracle and symbolic oracle disagree on x=%r thresholds=%r flags=%r: %s" % (vals, all_thr, ctx["flags"], problems[:2]))
         res["witnesses"] += 1
@@ -256,6 +272,8 @@ def _graph_variant(st, vals, triples, graph, shapemap):
         return T.reverse_triples(triples)
     if graph == "P":
         return R.generate_triples(T.permuted_rows(st["rows"]), vals, shapemap=shapemap)
+    if graph == "D":
+        return T.drop_ignored(triples)
     return triples
 
 
@@ -290,8 +308,9 @@ def replay(args):
     runs = plan_runs(args["prop"], args["scenario"], args["flags"], thrs, cfg)
     reals = []
     for r in runs:
-        doc = R.to_ntriples(_graph_variant(st, args["values"], triples, r["graph"], shapemap))
+        doc = R.to_ntriples(_graph_variant(st, args["values"], triples, r.get("real_graph", r["graph"]), shapemap))
         extra = dict(r["extra"])
+        extra.update(r.get("real_extra", {}))
         if cfg.get("targets") is not None:
             extra["target_classes"] = [R.EX + c for c in cfg["targets"]]
         if shapemap:
